@@ -283,12 +283,16 @@ Proof.
   - (* WJobErr *)
     assert (Hk := Hkl eq_refl). inv_some H. weff_plain Hk.
   - (* WSerial *)
-    destruct (_ <? _); inv_some H; [weff_plain Hkl|].
+    destruct (_ <? _); [inv_some H; weff_plain Hkl|].
     set (jb := getj s (w_slot w)) in *. set (py := job_pay cfg s jb) in *.
     assert (Hnz : w_pc (after_serial cfg w jb py) <> WSerialZ /\ postens (w_pc (after_serial cfg w jb py)) = false).
     { unfold after_serial. destruct (negb _ && _); [cbn; split; [discriminate|reflexivity]|].
       unfold next_chunk, last_block. repeat match goal with |- context[if ?b then _ else _] => destruct b end; cbn; split; try discriminate; reflexivity. }
     destruct Hnz as (Hz1 & Hz2).
+    destruct (negb _); inv_some H.
+    { (* the turn was skipped: only the pc moves *)
+      exists (after_serial cfg w jb py). unfold weff. weff_norm. split; [lia|]. split; [left; split; reflexivity|].
+      split; [reflexivity|]. split; [left; reflexivity|]. split; [intros X; contradiction|intros X; rewrite Hz2 in X; discriminate]. }
     exists (after_serial cfg w jb py). unfold weff.
     destruct (_ && ldm (mt s)); weff_norm; (split; [lia|]); (split; [right; split; [reflexivity|exact Hz1]|]);
       (split; [cbn; auto|]); (split; [cbn; auto|]); (split; [intros X; contradiction|intros X; rewrite Hz2 in X; discriminate]).
